@@ -179,8 +179,21 @@ def reset_process_state(order_seed=0, overrides=None, cache_size=1000):
     if not _verif.ENABLED:
         raise RuntimeError('worker started without %s=1' % GUARD)
     _verif.reset(order_seed, overrides)
+    warm_process()
     from pytableaux.lang import LexicalAbcMeta
     LexicalAbcMeta.__call__._cache.__init__(maxlen=cache_size)
+
+_warm = [False]
+def warm_process():
+    """Load every logic module before the first run: importing one builds example tableaux
+    (rule attribute induction) and would otherwise consume hash-provider state inside whichever
+    run happens to use the logic first in this process."""
+    if _warm[0]:
+        return
+    from pytableaux.logics import registry
+    for modname in sorted(registry.all()):
+        registry(modname.rsplit('.', 1)[1])
+    _warm[0] = True
 
 def load_check(check_id):
     return importlib.import_module('sim.checks.' + check_id.lower())
@@ -253,8 +266,10 @@ def worker_main(argv):
             result['digests'] = digs
         else:
             raise ValueError(mode)
-    except Exception:
-        result['errors'].append(traceback.format_exc())
+    except BaseException as e:
+        if isinstance(e, (KeyboardInterrupt, SystemExit)):
+            raise
+        result['errors'].append(traceback.format_exc() + '\n' + str(e))
     result['acc'] = acc.dump()
     tmp = out + '.tmp'
     with open(tmp, 'w') as f:
